@@ -16,6 +16,7 @@ import (
 	"context"
 	"crypto/ecdsa"
 	"crypto/elliptic"
+	"crypto/tls"
 	crand "crypto/rand"
 	"crypto/x509"
 	"crypto/x509/pkix"
@@ -725,8 +726,23 @@ func c16FeStop(o *Out, kind string, servers, fail int) {
 		o.notes["fe_stop_injection"] = "skipped: frontend/http/frontend.go does not call net.Listen( any more"
 		return
 	}
+	// one answered request per server first: the serving goroutines have registered their listeners with the servers (Stop
+	// racing with start-up is scenario (b); there a listener may be closed by Serve itself, whose error nobody can report)
+	q := "/scrape?info_hash=" + url.QueryEscape(string(bytes.Repeat([]byte{'x'}, 20)))
 	if servers != 2 {
-		c16RawGet(addrH, "/scrape?info_hash="+url.QueryEscape(string(bytes.Repeat([]byte{'x'}, 20))), 2*time.Second) // the server is serving
+		if len(c16RawGet(addrH, q, 5*time.Second)) == 0 {
+			panic("c16: the HTTP server did not answer")
+		}
+	}
+	if servers != 1 {
+		cl := &nethttp.Client{Timeout: 5 * time.Second, Transport: &nethttp.Transport{TLSClientConfig: &tls.Config{InsecureSkipVerify: true}, DisableKeepAlives: true}}
+		resp, gerr := cl.Get("https://" + addrS + q)
+		if gerr != nil {
+			panic("c16: the HTTPS server did not answer: " + gerr.Error())
+		}
+		_, _ = io.ReadAll(resp.Body)
+		resp.Body.Close()
+		cl.CloseIdleConnections()
 	}
 	res := &c16Res{ch: f.Stop()}
 	done := res.wait(c16Long / 4)
